@@ -32,6 +32,13 @@ def run(ctx):
     rule_unfiltered(ctx, 'C12.R2', A)
     rule_labelling(ctx, 'C12.R3', A, 'return_good=False')
     rule_wrapfree(ctx, 'C12.R4', A)
+    # detection never fails: the filter applied to every segment when only good cycles are requested is the documented
+    # total predicate (np.all over the differences is defined for a one-sample segment, a .min() over them is not),
+    # and the phase is canonicalised by ensure_2d (a vector is one column; rows are never re-read as samples)
+    from . import c13, c19
+    c13.rule_criteria(ctx, 'C12.R5')
+    c19.rule_shape_classes(ctx, 'C12.R6', names=('ensure_2d',))
+    c19.rule_layout_only(ctx, 'C12.R6', names=('ensure_2d',))
     if ctx.tier == 'thorough':
         for rg, mk in ((True, False), (True, True), (False, True)):
             A2 = cyclevec.get(ctx, rg, mk)
